@@ -118,8 +118,10 @@ def run(cx):
           stmt="capacity")
 
     # ---- R20c encoder ------------------------------------------------------------------
-    enc_order = _encoder(cx, enc, mod, alpha_name, len_name)
-    dec_order = _decoder(cx, dec, mod, alpha_name, index_name)
+    # (each in its own group: an encoder / decoder written in a form that is not recognised leaves R20c undecided, the
+    # validation rules below are still decided)
+    enc_order = cx.guard(_encoder, cx, enc, mod, alpha_name, len_name)
+    dec_order = cx.guard(_decoder, cx, dec, mod, alpha_name, index_name)
     if enc_order and dec_order:
         cx.ob("R20c", dec, enc_order == dec_order, f"encoder writes {enc_order}, decoder reads {dec_order}", stmt="digit order agreement")
     # to_short: returns encoder(<arg>.int)
@@ -139,6 +141,7 @@ def run(cx):
     arg = params(from_short)[0]
     dcalls = [n for n in walk_local(from_short) if isinstance(n, ast.Call) and call_name(n) == dec.name]
     cx.need(dcalls, "R20d", from_short, "decoder is not called")
+    regex_checked = False
     for c in dcalls:
         fs = facts(c, expand_tests=True)
         is_str = any(isinstance(e, ast.Call) and call_name(e) == "isinstance" and pol and is_name(e.args[0], arg) and is_name(e.args[1], "str") for e, pol in fs)
@@ -146,7 +149,16 @@ def run(cx):
             (isinstance(e.ops[0], ast.NotEq) and not pol) or (isinstance(e.ops[0], ast.Eq) and pol))
             and {norm(e.left), norm(e.comparators[0])} == {f"len({arg})", len_name} for e, pol in fs)
         cx.ob("R20d", c, is_str, "decoding is dominated by the isinstance(str) test" if is_str else "decoding is reachable for a non-str argument")
-        cx.ob("R20d", c, len_ok, f"decoding is dominated by len({arg}) == {len_name}" if len_ok else "decoding is reachable for a string of another length", stmt=norm(enclosing_stmt(c)) + " [length]")
+        rx = None if len_ok else _regex_validation(cx, fs, arg, mod, alpha, length)
+        if rx is not None:
+            witness, only_alphabet, text = rx
+            regex_checked = regex_checked or (witness is None and only_alphabet)
+            cx.ob("R20d", c, witness is None, f"decoding is dominated by {text}, which accepts strings of {length} characters only" +
+                  (" (all of the alphabet)" if only_alphabet else " (foreign characters are left to the look-up)") if witness is None else
+                  f"decoding is dominated by {text}, which also accepts {witness!r} ({len(witness)} characters): a string of another length is decoded",
+                  stmt=norm(enclosing_stmt(c)) + " [length]")
+        else:
+            cx.ob("R20d", c, len_ok, f"decoding is dominated by len({arg}) == {len_name}" if len_ok else "decoding is reachable for a string of another length", stmt=norm(enclosing_stmt(c)) + " [length]")
         ok = len(c.args) == 1 and is_name(c.args[0], arg)
         cx.ob("R20d", c, ok, "the whole argument is decoded" if ok else f"decoder receives {norm(c.args[0]) if c.args else '?'} instead of the argument", stmt=norm(enclosing_stmt(c)) + " [arg]")
     ucalls = [n for n in walk_local(from_short) if isinstance(n, ast.Call) and dotted(n.func) in ("uuid.UUID", "UUID")]
@@ -201,8 +213,8 @@ def run(cx):
     # R20e: every implicit raiser inside try; handler types
     tries = [n for n in walk_local(from_short) if isinstance(n, ast.Try)]
     implicit = set()
-    if dec_subs:
-        implicit.add("KeyError")       # dict subscript in the decoder
+    if dec_subs and not regex_checked:
+        implicit.add("KeyError")       # dict subscript in the decoder (a validation that admits alphabet characters only excludes it)
     for nm_, _u in extra_raisers:
         implicit.add(nm_)
     # a .get() look-up never raises by itself: what happens to a character outside the alphabet?
@@ -280,6 +292,36 @@ def run(cx):
     in_try = [c for c in fb if any(c in list(ast.walk(s)) for s in t.body)]
     cx.ob("R20f", t, not in_try, "fallback is outside the try body" if not in_try else "short form is attempted inside the try body", stmt="try: [order]")
     cx.count("functions_analysed", 5)
+
+
+def _regex_validation(cx, fs, arg, mod, alpha, length):
+    """A must-fact `<compiled>.match(arg)` / `.fullmatch(arg)` / `re.match(P, arg)` / `re.fullmatch(P, arg)`: the language of whole
+    strings it accepts against alphabet^length.  -> None (no such fact) | (witness of another length or None, accepts alphabet characters only?, description)"""
+    from sa import automata as A
+    for e, pol in fs:
+        if not (pol and isinstance(e, ast.Call) and isinstance(e.func, ast.Attribute) and e.func.attr in ("match", "fullmatch") and not e.keywords):
+            continue
+        recv, pat = e.func.value, None
+        if is_name(recv, "re") and len(e.args) == 2 and is_name(e.args[1], arg):
+            pat = e.args[0]
+        elif isinstance(recv, ast.Name) and recv.id in mod.globals and len(e.args) == 1 and is_name(e.args[0], arg):
+            g = mod.globals[recv.id]
+            if isinstance(g, ast.Call) and dotted(g.func) == "re.compile" and len(g.args) == 1 and not g.keywords:
+                pat = g.args[0]
+        if pat is None:
+            continue
+        try:
+            text = literal(pat, mod)
+        except Exception as ex:
+            raise AnalysisError("R20d", f"{REL}::validation pattern", f"pattern is not a constant: {ex}")
+        if not isinstance(text, str):
+            raise AnalysisError("R20d", f"{REL}::validation pattern", "pattern is not a string")
+        lang = A.accepted_language(text, e.func.attr)
+        w, _n = A.find_in_a_not_b(lang, A.cat(*[A.charset(A.SIGMA)] * length))       # the length clause
+        w2, _n2 = A.find_in_a_not_b(lang, A.star(A.charset(alpha)))                    # alphabet only? (else the look-up decides)
+        cx.counts["R20d:validation patterns decided"] = cx.counts.get("R20d:validation patterns decided", 0) + 1
+        return w, w2 is None, f"re.{e.func.attr}({text[:12]}..{text[-8:]!r})"
+    return None
 
 
 def _exc_type(cx, r, mod):
